@@ -113,58 +113,94 @@ theorem c13_idle_closed_sys (cfg : Cfg) (pre : List Op) (i : Nat) (c : Conn)
       simp [Sys.conn, this, lookupConn] at hc
   exact sys_idle_closed cfg s i c hg.wf hc (hg.rest i c hc) hx ops1 ops2 ops3 n1 n2 hf1 hf2 hf3 ha hb
 
-/-- HTTP/2, idle: a connection without streams is ended (GOAWAY, then close) by the first sweep
-    more than keep-alive-idle seconds after the last HEADERS/DATA frame, and not before. -/
-theorem c13_h2_idle_closed (v : H2View) (now : Int) (hs : v.st = .write) (he : v.streams = []) :
-    checkTimeoutH2 v now =
-      if now - v.rts > v.kaIdle then (true, .respEnd, false) else (false, .write, true) :=
-  checkTimeoutH2_idle v now hs he
-
-/-- HTTP/2, stalled: if some stream is waiting for the client — its request body is outstanding and
-    nothing was read for more than max-read-idle, or its response is in progress and nothing could
-    be written for more than max-write-idle — the sweep puts the whole connection into the error
-    state (which closes it), whatever the other streams are doing. -/
-theorem c13_h2_stalled_closed (v : H2View) (now : Int) (hs : v.st = .write)
-    (h : ∃ s ∈ v.streams, s.st ≠ .error ∧
-      ((s.bodyPending = true ∧ now - v.rts > s.ri) ∨ (s.st ≠ .readPost ∧ v.wts ≠ 0 ∧ now - v.wts > v.wi))) :
-    checkTimeoutH2 v now = (true, .error, false) :=
-  checkTimeoutH2_fires v now hs h
+/-- HTTP/2 (partial): h2_check_timeout() acts on a connection in the write state exactly when it is idle
+    (no streams) for more than keep-alive-idle, or some stream is stalled — request body outstanding
+    and nothing read for more than max-read-idle, or response in progress and nothing written for more
+    than max-write-idle; then the connection leaves the write state (RESPONSE_END / ERROR), whatever the
+    other streams do; otherwise it is left alone.  MISSING for the planned `c13_idle_closed` on HTTP/2:
+    there is no model of the HTTP/2 glue, so the step from that state to GOAWAY, close and slot release
+    is not a theorem (covered end-to-end only: h2-idle, h2-idle-after-request, h2-body-stall,
+    h2-window-stall). -/
+theorem c13_h2_sweep_exact_partial (v : H2View) (now : Int) (hs : v.st = .write)
+    (hne : ∀ s ∈ v.streams, s.st ≠ .error) :
+    ((checkTimeoutH2 v now).1 = true ↔
+      (v.streams = [] ∧ now - v.rts > v.kaIdle) ∨
+      ∃ s ∈ v.streams, s.st ≠ .error ∧
+        ((s.bodyPending = true ∧ now - v.rts > s.ri) ∨ (s.st ≠ .readPost ∧ v.wts ≠ 0 ∧ now - v.wts > v.wi))) ∧
+    ((checkTimeoutH2 v now).1 = true → (checkTimeoutH2 v now).2.1 ≠ .write) := by
+  refine ⟨checkTimeoutH2_exact v now hs hne, fun h => ?_⟩
+  rcases (checkTimeoutH2_exact v now hs hne).mp h with ⟨he, ht⟩ | hf
+  · rw [checkTimeoutH2_idle v now hs he, if_pos ht]; simp
+  · rw [checkTimeoutH2_fires v now hs hf]; simp
 
 /-! ## limits are enforced by refusing, not by buffering -/
 
-/-- C13, head limit: as soon as what has been received of a request head exceeds
-    max-request-field-size — whether the head is still incomplete or just completed — the answer
-    is 431 and the connection goes to the close state; nothing more is read for it. -/
-theorem c13_limits_refuse_head (cfg : Cfg) (now : Int) (c : Conn) (r : Req) (n : Nat) (hs : c.st = .read)
-    (h : (c.hdrBuf + n < r.H ∧ cfg.fs < c.hdrBuf + n) ∨ (r.H ≤ c.hdrBuf + n ∧ cfg.fs < r.H)) :
-    (recv cfg now c r n).2 = [431] ∧ ∀ c', (recv cfg now c r n).1 = some c' → c'.st = .close :=
-  recv_head_431 cfg now c r n hs h
+/-- C13, limits: the answer does not depend on how a request arrives.  For every request (exact head
+    length, Content-Length or chunked body, any sizes) and EVERY way of cutting it into pieces arriving
+    at arbitrary seconds on a connection waiting for it, exactly one answer is written, and it is the
+    one `expectedStatus` reads off the request alone: 431 iff the head is longer than
+    max-request-field-size, else 413 iff the declared or the decoded chunked body exceeds
+    max-request-size, else 200. -/
+theorem c13_limits_refuse (cfg : Cfg) (r : Req) (hv : r.Valid) (segs : List (Int × Nat)) (c : Conn)
+    (hs : c.st = .read) (hb : c.hdrBuf = 0) (hp : ∀ x ∈ segs, 0 < x.2) (hsum : segSum segs = reqLen r) :
+    (feed cfg r (some c) segs).2 = [expectedStatus cfg r] :=
+  feed_expected cfg r hv segs c hs (by rw [hb]; exact hv.1) (by rw [hb]; exact Nat.zero_le _) hp
+    (by rw [hb, Nat.zero_add]; exact hsum)
 
-/-- … and between events an incomplete head never occupies more than the limit: what is buffered
-    beyond it is at most the read that crossed it. -/
-theorem c13_limits_head_buffer_bounded (cfg : Cfg) (now : Int) (c : Conn) (r : Req) (n : Nat)
-    (hs : c.st = .read) :
-    ∀ c', (recv cfg now c r n).1 = some c' → c'.st = .read → c'.hdrBuf ≤ cfg.fs :=
-  recv_hdrBuf_le cfg now c r n hs
+/-- … and what waits in memory between two events is bounded by the limits: an incomplete head
+    never occupies more than max-request-field-size; a Content-Length body still being read is
+    shorter than its declared length; a chunked body still being read is short of the size line that
+    would be refused (about max-request-size plus chunk framing).  A refusal takes nothing of the
+    body. -/
+theorem c13_limits_buffer_bounded (cfg : Cfg) (now : Int) (c : Conn) (r : Req) (n : Nat) :
+    (c.st = .read → ∀ c', (recv cfg now c r n).1 = some c' → c'.st = .read → c'.hdrBuf ≤ cfg.fs) ∧
+    (∀ c', (bodyStep cfg now c n).1 = some c' → c'.st = .readPost →
+      (c.req.kind = .post → c'.bodyGot < c.req.B) ∧
+      (c.req.kind = .chunked → cfg.rs ≠ 0 → c.req.csz ≠ 0 →
+        c'.bodyGot < (cfg.rs * 1024 / c.req.csz) * chunkUnit c.req.csz + hexLen c.req.csz + 7)) ∧
+    (c.st = .read → r.kind = .post → r.H ≤ c.hdrBuf + n → r.H ≤ cfg.fs → cfg.rs ≠ 0 → cfg.rs * 1024 < r.B →
+      ∀ c', (recv cfg now c r n).1 = some c' → c'.st = .close ∧ c'.bodyGot = 0) := by
+  refine ⟨recv_hdrBuf_le cfg now c r n, fun c' h hs => (bodyStep_rest_bounded cfg now c n c' h hs).2, ?_⟩
+  intro hs hk hh hf hr hb c' hc'
+  refine ⟨(recv_cl_413 cfg now c r n hs hk hh hf hr hb).2 c' hc', ?_⟩
+  unfold recv at hc'
+  have h1 : ¬ (c.hdrBuf + n < r.H) := by omega
+  have h2 : ¬ (r.H > cfg.fs) := by omega
+  have h3 : cfg.rs ≠ 0 ∧ r.B > cfg.rs * 1024 := ⟨hr, hb⟩
+  simp only [hs, h1, h2, if_false, hk] at hc'
+  rw [if_pos h3] at hc'
+  unfold respond finishResponse toClose at hc'
+  simp only [Bool.false_and, Bool.false_eq_true, if_false] at hc'
+  split at hc'
+  · cases hc'
+  · cases hc'; rfl
 
-/-- C13, body limit (Content-Length): a declared length beyond max-request-size is answered 413
-    when the head completes, before any of the body is taken; the connection closes. -/
-theorem c13_limits_refuse_body (cfg : Cfg) (now : Int) (c : Conn) (r : Req) (n : Nat) (hs : c.st = .read)
-    (hk : r.kind = .post) (hh : r.H ≤ c.hdrBuf + n) (hf : r.H ≤ cfg.fs) (hr : cfg.rs ≠ 0)
-    (hb : cfg.rs * 1024 < r.B) :
-    (recv cfg now c r n).2 = [413] ∧ ∀ c', (recv cfg now c r n).1 = some c' → c'.st = .close :=
-  recv_cl_413 cfg now c r n hs hk hh hf hr hb
-
-/-- C13, body limit (chunked): the chunk-size line that would take the decoded body beyond
-    max-request-size is answered 413 and closes the connection; conversely a chunked request that
-    is answered normally decoded to at most max-request-size. -/
-theorem c13_limits_refuse_chunked (cfg : Cfg) (now : Int) (c : Conn) (add : Nat)
-    (hk : c.req.kind = .chunked) :
-    (chunk413 cfg c.req (c.bodyGot + add) = true →
-      (bodyStep cfg now c add).2 = [413] ∧ ∀ c', (bodyStep cfg now c add).1 = some c' → c'.st = .close) ∧
-    (cfg.rs ≠ 0 → c.req.csz ≠ 0 → (bodyStep cfg now c add).2 = [200] →
-      chunkCount c.req * c.req.csz ≤ cfg.rs * 1024) :=
-  ⟨bodyStep_chunk_413 cfg now c add hk, bodyStep_chunked_ok_bounded cfg now c add hk⟩
+/-- C13, limits, HTTP/2: (a) a header list is refused with 431 exactly when the sum of name + value +
+    4 over its fields exceeds max-request-field-size (`h2HeadScan` = http_request_parse_header as
+    h2_parse_headers_frame drives it); (b) for every sequence of DATA frames of at most `F` bytes on a
+    stream, what h2_recv_data buffers never exceeds max-request-size + the 64 kB it sinks so that the
+    413 can be sent + one frame, and it exceeds max-request-size only after the 413 has been prepared
+    or with the stream's final frame. -/
+theorem c13_h2_limits_refuse :
+    (∀ (fs : Nat) (fields : List (Nat × Nat)),
+      h2HeadStatus fs fields = if (fields.map fun f => f.1 + f.2 + 4).sum > fs then 431 else 0) ∧
+    (∀ (max F : Nat) (frames : List (Nat × Bool)), max ≠ 0 → (∀ f ∈ frames, f.1 ≤ F) →
+      let b := h2DataRun max {} frames
+      b.bytesIn ≤ max + h2SinkAllowance + F ∧ (max < b.bytesIn → b.status = 413 ∨ b.isOpen = false)) := by
+  constructor
+  · intro fs fields
+    unfold h2HeadStatus
+    rw [h2HeadScan_eq fs fields 0 0 (Nat.zero_le _)]
+    simp
+  · intro max F frames hm hf
+    have h0 : ({} : H2Body).Bounded max F := ⟨Or.inl rfl, fun _ => ⟨Nat.zero_le _, fun h => by simp at h⟩, fun h => by simp at h⟩
+    have hb := h2DataRun_bounded max F hm frames hf {} h0
+    simp only
+    generalize h2DataRun max {} frames = b at hb
+    obtain ⟨_, hop, hcl⟩ := hb
+    cases ho : b.isOpen with
+    | true => have := hop ho; exact ⟨by omega, fun h => Or.inl (this.2 h)⟩
+    | false => exact ⟨hcl ho, fun _ => Or.inr rfl⟩
 
 /-! ## admission control -/
 
@@ -190,64 +226,144 @@ theorem c13_conn_cap (cfg : Cfg) (ops : List Op) :
 theorem c13_accept_bounded (lim : Nat) : acceptCount lim ≤ lim ∧ acceptCount lim ≤ acceptLoopCap :=
   ⟨acceptCount_le lim, acceptCount_le_cap lim⟩
 
-/-- C13, overload recovery: once the load has dropped (descriptors below the low watermark, a
-    free slot) the very next main-loop iteration re-enables the listen sockets and accepts a
-    waiting client in that same iteration. -/
+/-- C13, overload recovery, one iteration: once the load has dropped (descriptors below the low
+    watermark, a free slot) the very next main-loop iteration re-enables the listen sockets and accepts
+    a waiting client in that same iteration — from ANY state, reachable or not. -/
 theorem c13_overload_recovers (cfg : Cfg) (s : Sys) (hd : s.disabled = 1) (hf : s.curFds < cfg.lowat)
     (hl : s.lim ≠ 0) (hb : s.backlog ≠ []) :
     (s.round cfg).disabled = 0 ∧ (s.round cfg).backlog.length < s.backlog.length :=
   round_recovers cfg s hd hf hl hb
 
-/-- … so overload is never a permanent stall: if the main loop is at rest while clients are still
-    waiting in the listen queue, the server really is out of slots or of descriptors. -/
-theorem c13_wait_only_when_exhausted (cfg : Cfg) (s : Sys) (hst : s.round cfg = s) (hb : s.backlog ≠ []) :
-    s.lim = 0 ∨ cfg.lowat ≤ s.curFds :=
-  round_stable cfg s hst hb
+/-- C13, a waiting client is accepted once load drops — over whole scripts.  In EVERY state a script
+    reaches outside graceful shutdown, the main loop has come to rest (the model's iteration budget is
+    proved sufficient) with nobody waiting in the listen queue unless there is no free slot or the
+    descriptors in use have not fallen below the low watermark; the descriptor count is the start
+    level plus one per connection. -/
+theorem c13_no_idle_wait (cfg : Cfg) (ops : List Op)
+    (hg : ((Sys.init cfg).run cfg ops).graceful = false) (he : ((Sys.init cfg).run cfg ops).exited = false) :
+    (((Sys.init cfg).run cfg ops).backlog ≠ [] →
+      ((Sys.init cfg).run cfg ops).lim = 0 ∨ cfg.lowat ≤ ((Sys.init cfg).run cfg ops).curFds) ∧
+    ((Sys.init cfg).run cfg ops).curFds = cfg.cf + ((Sys.init cfg).run cfg ops).conns.length := by
+  have h := run_noIdleWait cfg (Sys.init cfg) ops (good_init cfg)
+    (fun _ _ => ⟨fun hb => absurd rfl hb, by simp [Sys.fdsBase, Sys.init]⟩) hg he
+  refine ⟨h.1, ?_⟩
+  have := h.2
+  simp only [Sys.fdsBase] at this
+  omega
+
+/-- C13, overload is never a permanent stall — with the side condition it needs.  If the descriptors
+    the server holds apart from client connections are below the low watermark (`cf < lowat`) and the
+    connection limit is not zero, then in every reachable state outside graceful shutdown: whenever a
+    slot is free and the connections in use leave the descriptor count below the low watermark, nobody
+    is waiting — in particular nobody waits beside an empty connection table.  Since every connection
+    whose client makes no progress is released (`c13_idle_closed_sys`), waiting ends.  The side
+    condition is necessary (see the witness below: with `cf ≥ lowat` a client waits forever beside an
+    empty table, in the model and at server.c server_overload_check alike); `mc ≠ 0` holds for every
+    configuration the server accepts (`c13_configured_limit`). -/
+theorem c13_overload_never_permanent (cfg : Cfg) (ops : List Op)
+    (hg : ((Sys.init cfg).run cfg ops).graceful = false) (he : ((Sys.init cfg).run cfg ops).exited = false) :
+    (((Sys.init cfg).run cfg ops).conns.length < cfg.mc →
+      cfg.cf + ((Sys.init cfg).run cfg ops).conns.length < cfg.lowat →
+      ((Sys.init cfg).run cfg ops).backlog = []) ∧
+    (cfg.cf < cfg.lowat → cfg.mc ≠ 0 → ((Sys.init cfg).run cfg ops).conns = [] →
+      ((Sys.init cfg).run cfg ops).backlog = []) := by
+  have h1 := c13_no_idle_wait cfg ops hg he
+  have h2 := (c13_conn_cap cfg ops).2 he
+  generalize (Sys.init cfg).run cfg ops = s at h1 h2
+  have key : s.conns.length < cfg.mc → cfg.cf + s.conns.length < cfg.lowat → s.backlog = [] := by
+    intro hs hf
+    apply Classical.byContradiction
+    intro hb
+    rcases h1.1 hb with h | h
+    · omega
+    · rw [h1.2] at h; omega
+  refine ⟨key, fun hcf hmc hc => key ?_ ?_⟩
+  · rw [hc]; simp; omega
+  · rw [hc]; simpa using hcf
+
+/-- server_main_setup(): the connection limit the server runs with is never zero and at most half the
+    descriptor limit, whatever server.max-connections says (0 = unset) — every configuration the
+    server accepts meets the `mc ≠ 0` side condition above. -/
+theorem c13_configured_limit (configured : Nat) (cfg : Cfg) :
+    effMaxConns configured cfg.maxFds ≠ 0 ∧ 2 * effMaxConns configured cfg.maxFds ≤ cfg.maxFds :=
+  effMaxConns_pos configured cfg.maxFds (cfg_maxFds_ge cfg)
 
 /-! ## graceful stop -/
 
 /-- C13, graceful stop, no new connection: the first signal closes the listen sockets (nobody is
-    left waiting in the queue) and fixes the deadline `now + graceful-shutdown-timeout`; from then
-    on, whatever happens, the set of connections only shrinks. -/
+    left waiting in the queue) and fixes the deadline at `now + graceful-shutdown-timeout` (0 = none);
+    from then on every step keeps the listen sockets closed, the queue empty and the deadline, and
+    serves no client it did not serve before. -/
 theorem c13_graceful_no_accept (cfg : Cfg) (s : Sys) :
     (s.graceful = false → s.exited = false → s.disabled ≠ 3 →
-      Stopping (s.step cfg .graceful) ∧ (s.step cfg .graceful).conns.length ≤ s.conns.length) ∧
-    (Stopping s → ∀ op, Stopping (s.step cfg op) ∧ (s.step cfg op).conns.length ≤ s.conns.length) := by
-  refine ⟨fun hg he hd => ?_, fun h op => step_stopping cfg s op h⟩
-  have hact : s.act cfg .graceful = { s with graceful := true } := by simp [Sys.act, hg, he]
-  unfold Sys.step
-  rw [hact]
-  have := settle_graceful_first cfg { s with graceful := true } rfl he hd
-  exact ⟨this.1, this.2.1⟩
+      Stopping (s.step cfg .graceful) ∧
+      (s.step cfg .graceful).expireTs = (if cfg.gt = 0 then 0 else s.now + cfg.gt) ∧
+      (s.step cfg .graceful).conns.length ≤ s.conns.length) ∧
+    (Stopping s → ∀ op, Stopping (s.step cfg op) ∧ (s.step cfg op).expireTs = s.expireTs ∧
+      ∀ i, (s.step cfg op).conn i ≠ none → s.conn i ≠ none) := by
+  refine ⟨fun hg he hd => ?_, fun h op => ?_⟩
+  · have hact : s.act cfg .graceful = { s with graceful := true } := by simp [Sys.act, hg, he]
+    unfold Sys.step
+    rw [hact]
+    have := settle_graceful_first cfg { s with graceful := true } rfl he hd
+    exact ⟨this.1, this.2.2, this.2.1⟩
+  · have h1 := step_stopping cfg s op h
+    have h2 := step_stopping_more cfg s op h
+    refine ⟨h1.1, h2.1, fun i hi => ?_⟩
+    intro hn
+    apply hi
+    rw [Sys.conn, lookup_none_iff]
+    intro hk
+    have := h2.2 i hk
+    rw [Sys.conn, lookup_none_iff] at hn
+    exact hn this
 
-/-- C13, graceful stop, in-flight work is left alone: before the deadline the maintenance pass
-    changes nothing of a request that is being read or a response that is being written (state,
-    timestamps and progress are kept) except that keep-alive is switched off. -/
-theorem c13_graceful_inflight (c : Conn)
-    (h : c.st = .write ∨ c.st = .readPost ∨ (c.st = .read ∧ (c.n ≤ 1 ∨ c.hdrBuf ≠ 0))) :
-    gracefulConn false c = some { c with keepAlive := false } :=
-  gracefulConn_inflight c h
+/-- C13, graceful stop, in-flight work is left alone (as far as the model can say it: it carries no
+    response bytes — that the bytes arrive complete is checked end to end only).  While stopping and
+    before the deadline, for every reachable state and every connection with a request being read or a
+    response being written: whatever any other client does, whatever the clock does short of that
+    connection's own timeout, the step leaves the connection exactly as it was except that keep-alive is
+    switched off, and the main loop keeps running. -/
+theorem c13_graceful_inflight (cfg : Cfg) (pre : List Op) (op : Op) (i : Nat) (c : Conn)
+    (hs : Stopping ((Sys.init cfg).run cfg pre)) (hc : ((Sys.init cfg).run cfg pre).conn i = some c)
+    (hst : c.st = .write ∨ c.st = .readPost) (hf : op.foreign i) (hsig : op ≠ .graceful)
+    (hexp : ((Sys.init cfg).run cfg pre).expireTs = 0 ∨
+      ((Sys.init cfg).run cfg pre).now + op.dt ≤ ((Sys.init cfg).run cfg pre).expireTs)
+    (hdl : ((Sys.init cfg).run cfg pre).now + op.dt ≤ c.deadline cfg) :
+    (((Sys.init cfg).run cfg pre).step cfg op).conn i = some { c with keepAlive := false } ∧
+    (((Sys.init cfg).run cfg pre).step cfg op).exited = false :=
+  graceful_inflight_step cfg _ op i c (c13_reachable_good cfg pre) hs hc hst hf hsig hexp hdl
 
-/-- C13, graceful stop, the process exits in time: at the first clock tick that takes the time past
-    the deadline every remaining connection is dropped and the main loop returns. -/
-theorem c13_graceful_exit (cfg : Cfg) (s : Sys) (n : Nat) (h : Stopping s) (he : s.exited = false)
-    (hx : s.expireTs ≠ 0 ∧ s.expireTs < s.now + n) : (s.step cfg (.tick n)).exited = true := by
-  have hn := neutral_sweep { s with now := s.now + n } (tickConn cfg (s.now + n))
-  have hact : s.act cfg (.tick n) = ({ s with now := s.now + n } : Sys).sweep (tickConn cfg (s.now + n)) := by
-    simp [Sys.act, he]
-  unfold Sys.step
-  rw [hact]
-  generalize ({ s with now := s.now + n } : Sys).sweep (tickConn cfg (s.now + n)) = s1 at hn
-  have hs1 : Stopping s1 := ⟨hn.graceful.trans h.graceful, hn.disabled.trans h.disabled, hn.backlog.trans h.backlog⟩
-  have hex : s1.expired = true := by
-    have h1 : s1.expireTs = s.expireTs := hn.expireTs
-    have h2 : s1.now = s.now + n := hn.now
-    simp [Sys.expired, h1, h2, hx.1, hx.2]
-  have he1 : s1.exited = false := hn.exited.trans he
-  unfold Sys.settle
-  simp only [he1, Bool.false_eq_true, if_false, Sys.loopToRest, hs1.graceful, if_true]
-  rw [(neutral_markAccepted _).exited, halt_exited]
-  exact gracefulPass_expired cfg s1 hs1.disabled hex
+/-- C13, graceful stop, one step: the first clock tick that takes the time past the deadline drops
+    every remaining connection — in-flight responses included: the timeout bounds the exit, not the
+    other way round — and the main loop returns; with or without a deadline the loop returns as soon
+    as the connection table is empty. -/
+theorem c13_graceful_exit (cfg : Cfg) (s : Sys) (h : Stopping s) :
+    (∀ n : Nat, s.exited = false → s.expireTs ≠ 0 ∧ s.expireTs < s.now + n → (s.step cfg (.tick n)).exited = true) ∧
+    (∀ op, (s.step cfg op).conns = [] → (s.step cfg op).exited = true) :=
+  ⟨fun n he hx => step_tick_expired cfg s n h he hx, fun op hc => step_stopping_idle_exits cfg s op h hc⟩
+
+/-- C13, graceful stop, the process exits within the graceful timeout — over whole scripts.  Take any
+    script `pre` after which the server is running normally, send the signal, and let anything at all
+    happen (`post`: all clients, further ticks, wake-ups): once the clock has advanced by more than
+    graceful-shutdown-timeout (≠ 0) the main loop has returned. -/
+theorem c13_graceful_exits (cfg : Cfg) (pre post : List Op) (hgt : cfg.gt ≠ 0)
+    (hg : ((Sys.init cfg).run cfg pre).graceful = false) (he : ((Sys.init cfg).run cfg pre).exited = false)
+    (hd : (cfg.gt : Int) < dur post) :
+    ((Sys.init cfg).run cfg (pre ++ [.graceful] ++ post)).exited = true := by
+  have hopen := run_listen_open cfg (Sys.init cfg) pre (fun _ => by simp [Sys.init]) hg
+  have hgood := c13_reachable_good cfg pre
+  rw [run_append, run_append]
+  generalize (Sys.init cfg).run cfg pre = s at hg he hopen hgood
+  have h1 := (c13_graceful_no_accept cfg s).1 hg he hopen
+  have hrun : s.run cfg [.graceful] = s.step cfg .graceful := rfl
+  rw [hrun]
+  have hnow : (s.step cfg .graceful).now = s.now := by rw [step_now]; simp [Op.dt]
+  have hE : (s.step cfg .graceful).expireTs = s.now + cfg.gt := by rw [h1.2.1, if_neg hgt]
+  refine stopping_run_exits cfg _ post h1.1 ?_ (Or.inr ?_) ?_
+  · rw [hE]; have := hgood.now; omega
+  · rw [hE, hnow]; omega
+  · rw [hE, hnow]; omega
 
 /-! ## non-vacuity: concrete instances of the hypotheses -/
 
@@ -293,29 +409,46 @@ example : runIdle {} (some exBlocked) ([] ++ [.tick 1004] ++ [] ++ [.tick 1010] 
   c13_idle_closed {} exBlocked (Or.inr (Or.inr (Or.inl ⟨rfl, rfl, by decide⟩))) [] [] [] 1004 1010
     (by intro t ht; cases ht) (by decide) (by decide)
 
-example : checkTimeoutH2 { st := .write, streams := [], rts := 1000, wts := 1000, kaIdle := 2, wi := 3 } 1003
-    = (true, .respEnd, false) := by
-  rw [c13_h2_idle_closed _ _ rfl rfl]; decide
+/-- idle: acts at 1003, not at 1002; a stalled upload beside a healthy stream: acts -/
+example : (checkTimeoutH2 { st := .write, streams := [], rts := 1000, wts := 1000, kaIdle := 2, wi := 3 } 1003).1 = true ∧
+    (checkTimeoutH2 { st := .write, streams := [], rts := 1000, wts := 1000, kaIdle := 2, wi := 3 } 1002).1 = false := by
+  constructor
+  · exact ((c13_h2_sweep_exact_partial _ 1003 rfl (by simp)).1).mpr (Or.inl ⟨rfl, by decide⟩)
+  · decide
 
-example : checkTimeoutH2 { st := .write, streams := [⟨.handleReq, false, 2⟩, ⟨.readPost, true, 2⟩],
-                           rts := 1000, wts := 1002, kaIdle := 2, wi := 3 } 1003 = (true, .error, false) :=
-  c13_h2_stalled_closed _ _ rfl ⟨⟨.readPost, true, 2⟩, by simp, by decide, Or.inl ⟨rfl, by decide⟩⟩
+example : (checkTimeoutH2 { st := .write, streams := [⟨.handleReq, false, 2⟩, ⟨.readPost, true, 2⟩],
+                            rts := 1000, wts := 1002, kaIdle := 2, wi := 3 } 1003).1 = true :=
+  ((c13_h2_sweep_exact_partial _ 1003 rfl (by decide)).1).mpr
+    (Or.inr ⟨⟨.readPost, true, 2⟩, by simp, by decide, Or.inl ⟨rfl, by decide⟩⟩)
 
-/-- a 300-byte head against a 256-byte limit, arriving in pieces of 200 and 100 bytes -/
-example : (recv { fs := 256 } 1000 { hdrBuf := 200 } { H := 300 } 100).2 = [431] :=
-  (c13_limits_refuse_head { fs := 256 } 1000 { hdrBuf := 200 } { H := 300 } 100 rfl (Or.inr ⟨by decide, by decide⟩)).1
+/-- a 300-byte head against a 256-byte limit in pieces of 200 + 100 bytes at seconds 1000, 1001: 431;
+    a 1025-byte Content-Length against 1 kB, head and body dribbling in: 413; three 512-byte chunks
+    against 1 kB in 7 pieces: 413; two of them: 200 -/
+example : (feed { fs := 256 } { H := 300 } (some {}) [(1000, 200), (1001, 100)]).2 = [431] :=
+  c13_limits_refuse { fs := 256 } { H := 300 } ⟨by decide, by simp, by simp⟩ _ {} rfl rfl
+    (by intro x hx; simp at hx; rcases hx with rfl | rfl <;> decide) (by decide)
+example : expectedStatus { fs := 256 } { H := 300 } = 431 := by decide
+example : (feed { rs := 1 } { kind := .post, H := 100, B := 1025 } (some {}) [(1000, 60), (1000, 50), (1003, 1015)]).2 = [413] :=
+  c13_limits_refuse { rs := 1 } { kind := .post, H := 100, B := 1025 } ⟨by decide, fun _ => by decide, by simp⟩ _ {} rfl rfl
+    (by intro x hx; simp at hx; rcases hx with rfl | rfl | rfl <;> decide) (by decide)
+example : expectedStatus { rs := 1 } { kind := .chunked, H := 100, B := 1536, csz := 512 } = 413 ∧
+    expectedStatus { rs := 1 } { kind := .chunked, H := 100, B := 1024, csz := 512 } = 200 := by decide
+example : (feed { rs := 1 } { kind := .chunked, H := 100, B := 1024, csz := 512 } (some {})
+    [(1000, 100), (1000, 500), (1001, 543)]).2 = [200] :=
+  c13_limits_refuse { rs := 1 } { kind := .chunked, H := 100, B := 1024, csz := 512 } ⟨by decide, by simp, fun _ => by decide⟩ _ {} rfl rfl
+    (by intro x hx; simp at hx; rcases hx with rfl | rfl | rfl <;> decide) (by decide)
 
 example : ∀ c', (recv { fs := 256 } 1000 {} { H := 300 } 200).1 = some c' → c'.st = .read → c'.hdrBuf ≤ 256 :=
-  c13_limits_head_buffer_bounded { fs := 256 } 1000 {} { H := 300 } 200 rfl
+  (c13_limits_buffer_bounded { fs := 256 } 1000 {} { H := 300 } 200).1 rfl
 
-example : (recv { rs := 1 } 1000 {} { kind := .post, H := 100, B := 1025 } 100).2 = [413] :=
-  (c13_limits_refuse_body { rs := 1 } 1000 {} { kind := .post, H := 100, B := 1025 } 100 rfl rfl
-    (by decide) (by decide) (by decide) (by decide)).1
-
-/-- three 512-byte chunks against a 1 kB limit: refused when the third size line is complete -/
-example : (bodyStep { rs := 1 } 1000 { req := { kind := .chunked, H := 100, B := 1536, csz := 512 }, bodyGot := 1038 } 5).2 = [413] :=
-  ((c13_limits_refuse_chunked { rs := 1 } 1000
-      { req := { kind := .chunked, H := 100, B := 1536, csz := 512 }, bodyGot := 1038 } 5 rfl).1 (by decide)).1
+/-- HTTP/2: the four pseudo-header fields plus a 600-byte field against 256: 431; DATA 500+500+500
+    against 1 kB: the third frame is refused (413 prepared, 1000 bytes kept) -/
+example : h2HeadStatus 256 [(7, 3), (7, 4), (5, 2), (10, 1), (5, 600)] = 431 := by
+  rw [c13_h2_limits_refuse.1]; decide
+example : (h2DataRun 1024 {} [(500, false), (500, false), (500, false)]).bytesIn = 1000 ∧
+    (h2DataRun 1024 {} [(500, false), (500, false), (500, false)]).status = 413 := by decide
+example : (h2DataRun 1024 {} [(1024, false), (1, false), (60000, false), (10000, false)]).bytesIn ≤ 1024 + h2SinkAllowance + 60000 :=
+  (c13_h2_limits_refuse.2 1024 60000 _ (by decide) (by intro f hf; simp at hf; rcases hf with rfl | rfl | rfl | rfl <;> decide)).1
 
 /-- five clients against two slots: two are served, three wait -/
 example : let s := (Sys.init { mc := 2 }).run { mc := 2 } [.open_ 0, .open_ 1, .open_ 2, .open_ 3, .open_ 4]
@@ -334,24 +467,56 @@ example : (exOverloaded.round { mc := 2 }).disabled = 0 ∧
     (exOverloaded.round { mc := 2 }).backlog.length < exOverloaded.backlog.length :=
   c13_overload_recovers { mc := 2 } exOverloaded rfl (by decide) (by decide) (by decide)
 
-/-- at rest with a client waiting: all slots are in use -/
-def exFull : Sys :=
-  { lim := 0, curFds := 11, disabled := 1, backlog := [1], conns := [(0, { rts := 1000 })],
-    clients := List.replicate maxClients {} }
-example : exFull.lim = 0 ∨ ({ mc := 1 } : Cfg).lowat ≤ exFull.curFds :=
-  c13_wait_only_when_exhausted { mc := 1 } exFull rfl (by decide)
+/-- three clients against one slot, the first leaves: the second is let in, the third still waits —
+    because no slot is free -/
+example : let s := (Sys.init { mc := 1 }).run { mc := 1 } [.open_ 0, .open_ 1, .open_ 2, .close 0]
+    s.backlog = [2] ∧ s.lim = 0 ∧ s.conns.length = 1 := by decide
+example : let s := (Sys.init { mc := 1 }).run { mc := 1 } [.open_ 0, .open_ 1, .open_ 2, .close 0]
+    (s.backlog ≠ [] → s.lim = 0 ∨ ({ mc := 1 } : Cfg).lowat ≤ s.curFds) ∧ s.curFds = 10 + s.conns.length :=
+  c13_no_idle_wait { mc := 1 } [.open_ 0, .open_ 1, .open_ 2, .close 0] (by decide) (by decide)
+example : ((Sys.init { mc := 1 }).run { mc := 1 } [.open_ 0, .open_ 1, .close 0, .close 1]).backlog = [] :=
+  (c13_overload_never_permanent { mc := 1 } [.open_ 0, .open_ 1, .close 0, .close 1] (by decide) (by decide)).2
+    (by decide) (by decide) (by decide)
+
+/-- the side condition is necessary: 26 descriptors in use at start against a low watermark of 25 —
+    after the only client has left, the next one waits beside an empty connection table, for ever -/
+example : let cfg : Cfg := { mc := 1, mf := 32, cf := 26 }
+    let s := (Sys.init cfg).run cfg [.open_ 0, .open_ 1, .close 0, .tick 100, .tick 100, .wake]
+    s.conns = [] ∧ s.lim = 1 ∧ s.backlog = [1] ∧ s.disabled = 1 ∧ ¬ (cfg.cf < cfg.lowat) := by decide
+
+example : effMaxConns 0 1024 = 341 ∧ effMaxConns 1000 64 = 32 ∧ effMaxConns 20 1024 = 20 := by decide
+example : effMaxConns 0 ({ mf := 10 } : Cfg).maxFds ≠ 0 := (c13_configured_limit 0 { mf := 10 }).1
 
 /-- a download in progress when the signal arrives -/
 def exServing : Sys :=
   { lim := 3, curFds := 11, backlog := [1], conns := [(0, exBlocked)], clients := List.replicate maxClients {} }
-example : Stopping (exServing.step {} .graceful) :=
-  ((c13_graceful_no_accept {} exServing).1 rfl rfl (by decide)).1
-example : (exServing.step {} .graceful).conns.length = 1 ∧ (exServing.step {} .graceful).backlog = [] ∧
-    (exServing.step {} .graceful).expireTs = 1004 := by decide
-example : gracefulConn false exBlocked = some { exBlocked with keepAlive := false } :=
-  c13_graceful_inflight exBlocked (Or.inl rfl)
+example : Stopping (exServing.step {} .graceful) ∧ (exServing.step {} .graceful).expireTs = 1004 := by
+  have := (c13_graceful_no_accept {} exServing).1 rfl rfl (by decide)
+  exact ⟨this.1, this.2.1⟩
+example : (exServing.step {} .graceful).conns.length = 1 ∧ (exServing.step {} .graceful).backlog = [] := by decide
+
+/-- a client connects and asks for a big response, the signal arrives, another client tries to connect,
+    two seconds pass: the response is still being written, untouched -/
+def exPre : List Op := [.open_ 0, .prepare 0 { H := 100, big := true }, .send 0 0, .graceful]
+def exWriting : Conn := { st := .write, inEv := false, outEv := true, rts := 1000, wts := 1000, kaIdle := 1,
+                          req := { H := 100, big := true } }
+example : ((Sys.init {}).run {} exPre).conn 0 = some exWriting := rfl
+example : ((((Sys.init {}).run {} exPre).step {} (.tick 2)).conn 0).isSome = true ∧
+    (((Sys.init {}).run {} exPre).step {} (.tick 2)).exited = false := by
+  have h := c13_graceful_inflight {} exPre (.tick 2) 0 exWriting
+    ⟨by decide, by decide, by decide⟩ rfl (Or.inl rfl) (by simp [Op.foreign, Op.client]) (by simp)
+    (by decide) (by decide)
+  exact ⟨by rw [h.1]; rfl, h.2⟩
+
 example : ((exServing.step {} .graceful).step {} (.tick 5)).exited = true :=
-  c13_graceful_exit {} (exServing.step {} .graceful) 5
-    ((c13_graceful_no_accept {} exServing).1 rfl rfl (by decide)).1 (by decide) (by decide)
+  (c13_graceful_exit {} (exServing.step {} .graceful)
+    ((c13_graceful_no_accept {} exServing).1 rfl rfl (by decide)).1).1 5 (by decide) (by decide)
+
+/-- the signal while a download is blocked and its client never reads: five seconds later
+    (timeout 4) the loop has returned, whatever else happened -/
+example : ((Sys.init {}).run {} ([.open_ 0, .prepare 0 { H := 100, big := true }, .send 0 0] ++ [.graceful] ++
+    [.tick 2, .open_ 1, .wake, .tick 3])).exited = true :=
+  c13_graceful_exits {} [.open_ 0, .prepare 0 { H := 100, big := true }, .send 0 0] [.tick 2, .open_ 1, .wake, .tick 3]
+    (by decide) (by decide) (by decide) (by decide)
 
 end LtVerif.C13
